@@ -245,5 +245,6 @@ example : ¬ IdiomsSafe (("Hash.Delete/r0", .resliceThenAppend) :: sliceIdioms) 
 example : ¬ IdiomsSafe (("Array.Sort/w0", .inPlace) :: ("Array.Sort/r0", .resliceReceiver) :: sliceIdioms) := by decide
 example : ¬ IdiomsSafe (("Array.Map/r0", .returnsReceiver) :: sliceIdioms) := by decide
 example : ¬ IdiomsSafe (("Array.Add/r0", .unknown "pool.Get()") :: sliceIdioms) := by decide
+example : ¬ IdiomsSafe (("Array.Reject/r0", .wrapsArgument) :: sliceIdioms) := by decide
 
 end Pcore.Coll
